@@ -1,3 +1,4 @@
+pub mod layouts;
 pub mod luau;
 pub mod programs;
 pub mod refactor;
